@@ -160,6 +160,7 @@ def calendar_producers_rule(ctx, rule: str) -> None:
                   f"v2version: calendar field '{f}' is bound to different sources in cal_info ({a}) and the parser ({b}); expected %{d}",
                   f"cal_info: {a}, parser: {b}", loc=ci.loc(), witness={"field": f, "cal_info": a, "parser": b, "expected": d})
     two_digit_year_rule(ctx, rule)
+    date_from_doy_rule(ctx, rule)
     q = tab1.get("quarter")
     from sa import formats as _fm
     qt = _fm.month_table(prog, ci, q, ci.params[0]) if q is not None else None
@@ -306,3 +307,33 @@ def run(ctx) -> None:
     fut = shapes.find_calls(prog, inc, gt.fq)
     ctx.check("R4", len(fut) == 1 and [unparse(a) for a in fut[0].args] == ["old_vinfo", "cur_cinfo"], "incr: _is_cal_gt(old_vinfo, cur_cinfo)", "v2version.incr: future-guard arguments swapped/changed",
               unparse(fut[0]) if fut else "", loc=inc.loc())
+
+
+def date_from_doy_rule(ctx, rule: str) -> None:
+    """version.date_from_doy(year, doy) evaluated (datetime from the standard library) for the first, the 60th and the last
+    day of a leap and a common year: day n of the year is 1 January + (n - 1) days, day 366 of a leap year included."""
+    import datetime as _dt
+    from sa.model import CannotFold, EvalError
+    prog = ctx.prog
+    fn = prog.function("version.date_from_doy")
+    ctx.visit(fn.fq)
+    stubs = {"dt.date": lambda f, node: _dt.date(*[f(a) for a in node.args], **{k.arg: f(k.value) for k in node.keywords}),
+             "dt.timedelta": lambda f, node: _dt.timedelta(*[f(a) for a in node.args], **{k.arg: f(k.value) for k in node.keywords})}
+    wrong = []
+    n = 0
+    try:
+        for year, doy in ((2024, 1), (2024, 60), (2024, 366), (2023, 1), (2023, 60), (2023, 365), (2021, 200)):
+            try:
+                got, _ys = prog.run_body(fn, {fn.params[0]: year, fn.params[1]: doy, "__strict__": True, "__stubs__": stubs})
+            except EvalError as ex:
+                got = f"raises: {ex}"
+            want = _dt.date(year, 1, 1) + _dt.timedelta(days=doy - 1)
+            n += 1
+            if got != want:
+                wrong.append(f"day {doy} of {year} -> {got}, expected {want}")
+    except (CannotFold, TypeError, AttributeError, KeyError, ValueError, IndexError, OverflowError) as ex:
+        ctx.observe(f"version.date_from_doy not evaluated ({type(ex).__name__}: {str(ex)[:80]})")
+        return
+    ctx.check(rule, not wrong, f"date_from_doy: day n is 1 January + (n - 1) days ({n} dates evaluated, day 366 of a leap year included)",
+              "version.date_from_doy: a day of the year is read back as another date", "; ".join(wrong[:3]) + " - the version for that day does not read back / moves backwards",
+              loc=fn.loc(), witness={"version": "2024.366", "pattern": "YYYY.JJJ"})
